@@ -665,6 +665,19 @@ def gen_busyretry(rnd):
     b = rnd.choice([0.2, 0.5])
     lead = rnd.choice([0.05, 0.1])
     n_cr = rnd.randint(1, 2)
+    if rnd.random() < 0.2:
+        # the failure happens AROUND the step body: the step's injected resource cannot be built the first time(s), with the kind of
+        # message a closed executor / loop produces.  It is a step failure like any other: retried under the policy, the slot handed on
+        k = rnd.randint(2, 4)
+        msg = rnd.choice(["cannot schedule new futures after shutdown", "Event loop is closed", "resource backend unavailable"])
+        steps = [
+            {"name": "start", "in": ["Go"], "nw": 1, "acts": [{"k": "send", "type": "EvB", "items": [{} for _ in range(k)]}, {"k": "ret", "type": None}], "declare": ["EvB"]},
+            {"name": "cruncher", "in": ["EvB"], "nw": 1, "retry": {"wait": {"k": "fixed", "w": rnd.choice([0, 0.1])}, "stop": {"k": "attempt", "n": 3}},
+             "res": {"kind": rnd.choice(["sync", "async"]), "delay": 0.1, "raise_first": rnd.randint(1, 2), "msg": msg, "cache": True},
+             "acts": [{"k": "sleep", "d": 0.2}, {"k": "ret", "type": "EvC"}]},
+            {"name": "join", "in": ["EvC"], "nw": 1, "acts": [{"k": "collect", "types": ["EvC"] * k}, {"k": "ret", "type": "StopEvent", "result": "const"}]},
+        ]
+        return {"family": "busyretry", "steps": steps, "timeout": None, "externals": [], "meta": {"resource_failure": True, "k": k, "msg": msg}}
     if rnd.random() < 0.35:
         # the siblings never await at all: a queue of blocking invocations behind one worker, each ready the moment the previous one
         # ends, so the control loop finds a finished worker every time it looks; the retry comes due in the middle of that stretch
